@@ -1,6 +1,7 @@
 """MIR/z3 stage of the C13 and C19 checks (see mirfmt.py)."""
 import os, re, shutil, subprocess, time
 import mirfmt
+import mirloop
 
 VERIF = os.path.dirname(os.path.dirname(os.path.abspath(__file__)))
 MIR_CACHE = os.path.join(VERIF, ".cache", "mir-target")
@@ -84,6 +85,7 @@ def san_obligation(mir, src):
 
 
 NATIVE_TESTS = {
+    "m3": mirloop.NATIVE_TEST,
     "uci": ("src/chess_move/chess_move.rs", '''
 #[cfg(test)]
 mod verif_mir_replay {
@@ -142,6 +144,27 @@ def run(prop, src, scratch, env, logs):
     except Exception as e:  # noqa
         return [dict(harness="mir::dump", kind="obligation", verdict="error", outcome="inconclusive: " + str(e)[:200])], [], [("mir::dump", str(e)[:200])]
     dump_s = time.time() - t0
+    if prop == "C11":
+        rec = dict(harness="mir::make_table_fill_loop", kind="obligation", engine="nightly MIR dump -> bounded path unrolling -> z3 (QF_BV)",
+                   claim="make_table: for one arbitrary square and an arbitrary MagicEntry with popcount(mask) <= 3, the fill loop visits EVERY subset of the mask (incl. empty and full), and each iteration writes table[magic_index(entry, b)] = slider_moves(deltas, square, b) for its blocker set b",
+                   functions_encoded=["make_table", "Bitboard::is_empty", "u64::wrapping_sub"],
+                   assumptions="slider_moves / magic_index uninterpreted (their contracts: M1, M2); one arbitrary iteration of the outer loop over ORDERED_SQUARES; popcount(mask) <= 3 (<= 8 iterations), longer paths shown infeasible",
+                   mir_dump_s=round(dump_s, 1))
+        try:
+            r = mirloop.check(mir, src)
+        except Exception as e:  # noqa
+            rec.update(verdict="unsupported", outcome="inconclusive: " + str(e)[:300])
+            return [rec], [], [(rec["harness"], str(e)[:300])]
+        rec.update(paths=r["paths"], solver_queries=r["queries"], solver_s=r["solver_s"], bound=r["bound"])
+        if r["verdict"] == "successful":
+            rec.update(verdict="successful", outcome="discharged")
+            return [rec], [], []
+        rec.update(verdict="failed", outcome="counterexample: " + "; ".join(r["problems"])[:700], failed_checks=[rec["claim"]])
+        failed, msg, text = native_replay("m3", src, scratch, env, logs)
+        rec["replay"] = dict(reproduced=failed, detail=msg)
+        if failed:
+            return [rec], [(rec, text, msg)], []
+        return [rec], [], [(rec["harness"], "solver counterexample did not reproduce in the native test (all table slots compared)")]
     jobs = [("uci", "mir::to_uci_text", uci_obligation, "ChessMove::to_uci returns origin ++ destination (++ q/r/b/n naming the promotion piece, for each of the four pieces); every promotion piece has a returning path")] if prop == "C19" else \
            [("san", "mir::san_assembly", san_obligation, "chess_move_to_algebraic_notation returns piece letter ++ disambiguator ++ capture mark ++ destination ++ promotion suffix ++ check suffix (castle: castle text ++ check suffix), each part taken from the right helper on the right arguments")]
     for which, name, fn, claim in jobs:
